@@ -56,7 +56,8 @@ def nontrivial(c):
     try:
         head, det = c.observed.split(" ## ")
         limit = int(c.input.split(";")[1].split("=")[1])
-        sizes = [len(d.split("^")[2]) // 2 for d in det.split("|") if d.split("^")[1] == "1"]
+        sizes = [(int(d.split("^")[2][1:]) if d.split("^")[2].startswith("#") else len(d.split("^")[2]) // 2)
+                 for d in det.split("|") if d.split("^")[1] == "1"]
         return c.input.startswith("mode=rodir") or c.input.startswith("mode=longname") or c.input.startswith("mode=retry") or any(1 <= limit < s for s in sizes)
     except Exception:
         return False
